@@ -381,6 +381,10 @@ pub fn drive_short(s: &mut Session, rng: &mut Rng, full: bool) {
         vec![0x90 | f, 60],
         vec![0x90 | c, 60, 100, 0xF0],
         vec![0x90 | c, 60, 100, 0xC0 | c],
+        vec![0xB0 | c, 121, 0],
+        vec![0xB0 | c, 123, 0],
+        vec![0xB0 | c, 1, 100, 121],
+        vec![0xE0 | c, 1, 2],
     ];
     let alpha: Vec<u8> = if full {
         (0..=255u8).collect()
